@@ -12,7 +12,7 @@ def repo_fix_and_hook_commits():
 CHECKS = {
  'C13': dict(level='fault_enumeration', design='6 C13', technique='deterministic simulation with fault injection on stored data: independent re-implementation of the documented sealing (M-seal) opens everything that leaves the host; every stored value is then corrupted (all single-byte modifications, all truncations, swaps, re-sealing under other secret/salt/version id, replayed HTTP response) and every fetch must fail',
    text='What the object-store server puts into the store, what the git server writes to files and history, and what the HTTP client sends are opened by an independent implementation of docs/src/encryption.md and must yield the plaintext handed in (format byte, fresh nonces, no plaintext). Each sampled stored value is then attacked exhaustively per byte position and truncation length, plus swapped / foreign-key / other-salt / other-version-id / garbage data and, on HTTP, a full genuine response for another parent; the next get_child_version / get_snapshot must return an error.',
-   note='M-seal uses ring primitives but none of server/encryption.rs. Values and configurations are sampled (each new secret/salt costs a 90 ms key derivation); per attacked value the position sweep is exhaustive in the thorough tier and for a quarter of the values in the quick tier.'),
+   note='M-seal uses ring primitives but none of server/encryption.rs. Secrets include ones ending in white space; on an empty bucket a gate plays a second client whose salt lands right before the first constructor\'s compare-and-swap. Values and configurations are sampled (each new secret/salt costs a 90 ms key derivation); per attacked value the position sweep is exhaustive in the thorough tier and for a quarter of the values in the quick tier.'),
  'C08': dict(level='exploration', design='6 C08', technique='deterministic simulation (refinement): seeded protocol call sequences through 1-3 handles on each real backend behind a proxy that compares every reply with the reference chain model; handles reopened at seeded points; whole replicas through the backends',
    text='Every reply of the local, object-store and git (local-only / shared remote) servers to add-version, get-child-version, add-snapshot and get-snapshot is compared with the single-copy chain model (acceptance rule, rejection names latest and changes nothing, child versions byte for byte incl. empty / non-UTF-8 / 1MB payloads, unknown parent, snapshots as stored); a fresh handle re-reads the chain at the end; a third of the runs drive whole replicas through the backend and require convergence with the mirror.',
    note='The HTTP leg runs the real reqwest client against a harness listener implementing docs/src/http.md on a loopback socket (one request in flight); object store in memory via the hook; git uses the real git binary.'),
